@@ -115,12 +115,29 @@ uint16_t floatToUint16(float value) {
   }
   bool negative = value < 0;
   double val = round(value*(negative ? -100.0 : 100.0));
+  if (val == 0) {
+    return 0;  // less than half of the smallest step
+  }
   int exp = ilogb(val)-10;
   if (exp < -10 || exp > 15) {
     return 0x7fff;  // invalid value DPT 9
   }
   auto shift = exp > 0 ? exp : 0;
-  auto sig = static_cast<uint16_t>(val * exp2(-shift));
+  auto sig = static_cast<uint16_t>(round(val * exp2(-shift)));  // nearest mantissa
+  if (sig > 0x7ff) {  // rounded up to the next power of two
+    if (shift < 15) {
+      shift++;
+      sig = 0x400;
+    } else {
+      sig = 0x7ff;
+    }
+  }
+  if (!negative && shift == 15 && sig == 0x7ff) {  // 0x7fff is reserved for the invalid value
+    if (val * exp2(-shift) >= 0x7ff) {
+      return 0x7fff;  // invalid value DPT 9
+    }
+    sig = 0x7fe;
+  }
   return static_cast<uint16_t>((shift << 11) | (negative ? 0x8000 | (0x800-sig) : sig));
 }
 
